@@ -8,6 +8,8 @@ LIST="$@"; [ -z "$LIST" ] && LIST=$(ls -d seeded/C*-* | xargs -n1 basename)
 if [ -n "$(git -C /repo status --porcelain --untracked-files=no)" ]; then echo "/repo has local edits" >&2; exit 2; fi
 HEAD=$(git -C /repo log --format=%h -1)
 for s in $LIST; do
+  # `touch /tmp/matrix.pause` holds the run between two seeds (someone else needs /repo)
+  while [ -f /tmp/matrix.pause ]; do sleep 5; done
   prop=${s%%-*}
   if ! git -C /repo apply --check /verif/seeded/$s/patch.diff 2>/dev/null; then echo "$s $prop HEAD=$HEAD patch-does-not-apply" >> $OUT; continue; fi
   git -C /repo apply /verif/seeded/$s/patch.diff
